@@ -15,7 +15,7 @@ import (
 func init() {
 	Register(&PropDef{
 		ID: "C10", QuickRuns: 2400, Level: "exploration",
-		Rule: "one run = 0-6 associations with 0-2 sessions each on the BESS datapath; per association one trigger is drawn from {none, Association Release, peer silent past the read timeout, heartbeats unanswered}, optionally SIGTERM (Stop) for the agent, all timed on the virtual clock to collide around one instant (offsets of microseconds to hundreds of milliseconds), with a session request in flight, under all scheduling strategies (PCT change points, statement-level pre-emption) and optional faults (datagram loss, agent stall, slow BESS RPCs beyond the join timeout, ICMP unreachable). Oracle: no panic / Fatal; every key installed for a session of an ended association is deleted exactly once and nothing of it remains; the peer can associate afresh and is served; untouched associations keep their sessions and answer heartbeats; after SIGTERM Run() returns within read_timeout + (retries+1) x resp_timeout + 10 s of virtual time. Non-trivial = at least one association with a session and one trigger fired; distinct = different multiset of (trigger, #sessions) plus stop/fault kinds plus outcome.",
+		Rule: "one run = 0-6 associations with 0-2 sessions each on the BESS datapath; per association one trigger is drawn from {none, Association Release, peer silent past the read timeout, heartbeats unanswered}, optionally SIGTERM (Stop) for the agent, all timed on the virtual clock to collide around one instant (offsets of microseconds to hundreds of milliseconds), with a session request in flight, under all scheduling strategies (PCT change points, statement-level pre-emption) and optional faults (datagram loss, agent stall, slow BESS RPCs beyond the join timeout, ICMP unreachable); optionally a peer the agent has never heard of sends its first datagram so that it arrives within nanoseconds to hundreds of microseconds of the stop, and optionally the agent itself opens an association towards a configured peer, possibly listed twice (two connections behind one key of the node's map). One run in six plays the end of an association (release / silence / stop) on the P4Runtime datapath with 2-4 sessions per association and one failing Write RPC inside the teardown: every session but the one hit by the failure must be gone from the switch. Oracle: no panic / Fatal; every key installed for a session of an ended association is deleted exactly once and nothing of it remains; the peer can associate afresh and is served; untouched associations keep their sessions and answer heartbeats; after SIGTERM Run() returns within read_timeout + (retries+1) x resp_timeout + 10 s of virtual time. Non-trivial = at least one association with a session and one trigger fired; distinct = different multiset of (trigger, #sessions) plus stop/fault kinds plus outcome.",
 		Assume: []string{"main() returns when Run() returns: the process exits and every other goroutine dies with it (sessions not yet removed at that moment stay in the datapath)",
 			"delete commands are counted at the simulated BESS daemon; a delete hit by an injected RPC fault may be missing"},
 		Real: CommonReal, Simulated: CommonSim,
@@ -34,6 +34,10 @@ type c10Plan struct {
 }
 
 func scenarioC10(r *Run) {
+	if r.Ch.Choose(6, "datapath") == 1 {
+		scenarioC10UP4(r)
+		return
+	}
 	r.Conf = DefaultBESSConf()
 	// rarely: more associations than the node's exit-notice channel buffers (100)
 	many := r.Ch.Choose(120, "many-assoc") == 1
@@ -71,6 +75,30 @@ func scenarioC10(r *Run) {
 	var plans []*c10Plan
 	for i := 0; i < na; i++ {
 		plans = append(plans, &c10Plan{p: r.AddPeer(), keys: map[string]bool{}, fseids: map[uint64]bool{}})
+	}
+	if !many && r.Ch.Choose(6, "configured-peer") == 1 {
+		// the agent itself opens an association towards a configured control plane
+		// node; the list may name the same node twice (two host names resolving to
+		// one address): two connections then sit behind one key of the node's map
+		cfg := r.AddPeer()
+		cfg.OnAssocReq = func(req *message.AssociationSetupRequest) {
+			cfg.SendMsg(message.NewAssociationSetupResponse(req.SequenceNumber, ie.NewNodeID(cfg.NodeID, "", ""), ie.NewCause(ie.CauseRequestAccepted), ie.NewRecoveryTimeStamp(cfg.TS)))
+		}
+		r.Conf.CPIface.Peers = []string{cfg.IP}
+		if r.Ch.Choose(2, "listed-twice") == 1 {
+			r.Conf.CPIface.Peers = []string{cfg.IP, cfg.IP}
+			r.Probe("configured-peer-listed-twice")
+		}
+		var ka func()
+		ka = func() {
+			r.Sim.After(readTimeout/3, func() {
+				if r.AgentAlive() {
+					cfg.SendMsg(message.NewHeartbeatRequest(cfg.NextSeq(), ie.NewRecoveryTimeStamp(cfg.TS), nil))
+					ka()
+				}
+			})
+		}
+		ka()
 	}
 	r.StartAgent()
 	if !r.AgentAlive() {
@@ -244,6 +272,23 @@ func scenarioC10(r *Run) {
 			n := r.W.Signal(inc, syscall.SIGTERM)
 			r.Op("SIGTERM delivered to the agent (%d handlers)", n)
 		})
+		if !many && r.Ch.Choose(2, "newcomer") == 1 {
+			// a peer the agent has never heard of sends its first datagram so that it
+			// reaches the listening socket around the instant of the stop: its
+			// connection is created (or not) while the node is shutting down
+			nc := r.AddPeer()
+			lat := int64(r.W.Net.ToAgent.LatMin)
+			d := []int64{0, 0, -1, 1, -5000, -50000, -300000, 20000, 300000}[r.Ch.Choose(9, "newcomer-off")]
+			r.Sim.At(stopAt-lat+d, func() {
+				if r.Ch.Choose(2, "newcomer-msg") == 0 {
+					nc.SendMsg(nc.AssocSetupMsg())
+				} else {
+					nc.SendMsg(message.NewHeartbeatRequest(nc.NextSeq(), ie.NewRecoveryTimeStamp(nc.TS), nil))
+				}
+				r.Op("a new peer's first datagram is on its way (arrives %d ns relative to the stop)", d)
+				r.Probe("first-contact-of-new-peer-at-stop")
+			})
+		}
 	}
 	if r.Ch.Choose(6, "stall") == 1 {
 		d := time.Duration(200+r.Ch.Choose(4000, "stall-ms")) * time.Millisecond
@@ -381,4 +426,160 @@ func scenarioC10(r *Run) {
 	}
 	r.CheckNoPanics("C10")
 	_ = os.Interrupt
+}
+
+
+// scenarioC10UP4: the end of an association on the P4Runtime datapath, where a
+// session's removal can be refused: one Write RPC of the teardown fails; every
+// other session of the association must be removed all the same, the
+// association is forgotten, nothing panics, Stop completes.
+func scenarioC10UP4(r *Run) {
+	o := r.DrawUP4Conf()
+	r.Conf.EnableHBTimer = true
+	r.Conf.HeartBeatInterval = "1s"
+	r.Conf.MaxReqRetries = 1
+	r.Conf.RespTimeout = "500ms"
+	r.Conf.ReadTimeout = 3
+	r.DrawStrategy()
+	sw := r.W.P4
+	np := 1 + r.Ch.Choose(2, "npeers")
+	for i := 0; i < np; i++ {
+		r.AddPeer()
+	}
+	r.StartAgent()
+	if !r.WaitUP4Ready() {
+		r.CheckNoPanics("C10")
+		return
+	}
+	g := NewGen(r)
+	g.PlainQER = true
+	g.UP4 = true
+	for _, k := range KnownTriggers {
+		g.Avoid[k] = true
+	}
+	for _, p := range r.Peers {
+		if p.AssociateRetry() == nil {
+			return
+		}
+		for i := 0; i < 2+r.Ch.Choose(3, "nsess"); i++ {
+			if res := p.Establish(g.Session(p, SessShape{TEIDChoose: true, NQER: r.Ch.Choose(2, "nq")})); res.Accepted {
+				r.Accepted++
+			}
+		}
+	}
+	victim := r.Peers[r.Ch.Choose(np, "victim")]
+	trigger := []string{"release", "silence", "stop"}[r.Ch.Choose(3, "trigger")]
+	nvict := len(victim.Sessions)
+	ueOf := func(s *CPSession) uint64 {
+		for _, x := range s.PDRs {
+			if x.SrcIface == IfCore {
+				return uint64(x.EffUEIP())
+			}
+		}
+		return 0
+	}
+	var ues []uint64
+	for _, s := range r.LiveSessions() {
+		if s.Peer == victim {
+			ues = append(ues, ueOf(s))
+		}
+	}
+	faulty := r.Ch.Choose(4, "write-failure") != 0
+	if faulty {
+		sw.FailKind = []string{"transport", "update", "bare-unknown"}[r.Ch.Choose(3, "failkind")]
+		sw.Faults.FailNth = sw.Writes + 1 + r.Ch.Choose(6*nvict+1, "fail-at")
+	}
+	r.Skel(fmt.Sprintf("up4 trigger=%s sessions=%d faulty=%v", trigger, nvict, faulty))
+	r.Op("UP4: peer%d with %d sessions ends by %s; one Write RPC of the teardown fails: %v (%s)", victim.Idx, nvict, trigger, faulty, sw.FailKind)
+	switch trigger {
+	case "release":
+		victim.Release()
+		r.Sim.RunFor(time.Second)
+	case "silence":
+		victim.AnswerHeartbeats = false
+		r.Sim.RunFor(8 * time.Second)
+	case "stop":
+		r.W.Signal(r.Inc, syscall.SIGTERM)
+		r.Sim.RunUntil(func() bool { return !r.AgentAlive() }, r.until(30*time.Second))
+		if r.AgentAlive() {
+			r.Violate("C10", "stop-does-not-complete:up4", "Run() has not returned 30 s after SIGTERM on the UP4 datapath\n%s", strings.Join(r.Sim.BlockedTable(), "\n"))
+			return
+		}
+	}
+	fired := sw.Fired["p4-write-fail-transport"]+sw.Fired["p4-write-fail-update"]+sw.Fired["p4-write-fail-bare-unknown"] > 0
+	sw.Faults.FailNth = 0
+	r.CheckNoPanics("C10")
+	if len(r.Violations) > 0 {
+		return
+	}
+	if fired {
+		r.Fault("p4-write-failed-during-teardown")
+	}
+	// sessions of the ended association that still have entries at the switch
+	v := p4view{sw}
+	left := 0
+	for _, ue := range ues {
+		n := 0
+		for _, tab := range []string{tSessDL, tTermUL, tTermDL} {
+			for _, e := range sw.SortedEntries(tab) {
+				if x, _ := v.match(tab, e, "ue_address"); x == ue {
+					n++
+				}
+			}
+		}
+		if n > 0 {
+			left++
+		}
+	}
+	allowed := 0
+	if fired {
+		allowed = 1 // the session whose removal was hit by the failure
+	}
+	if trigger == "stop" && np > 1 {
+		// every association ends at a stop: count the other peers' sessions too
+		for _, s := range r.LiveSessions() {
+			if s.Peer == victim {
+				continue
+			}
+			ue := ueOf(s)
+			for _, e := range sw.SortedEntries(tSessDL) {
+				if x, _ := v.match(tSessDL, e, "ue_address"); x == ue {
+					left++
+				}
+			}
+		}
+	}
+	if left > allowed {
+		r.Violate("C10", fmt.Sprintf("sessions-not-removed:up4:%s:failed-write=%v", trigger, fired), "association of peer%d ended by %s on UP4 (one Write RPC failed: %v): %d of its sessions still have entries at the switch, at most %d can be explained by the failed write", victim.Idx, trigger, fired, left, allowed)
+		return
+	}
+	if trigger == "stop" {
+		return
+	}
+	// the association is forgotten: the peer associates afresh and is served
+	victim.AnswerHeartbeats = true
+	victim.Sessions = map[uint64]*CPSession{}
+	victim.Associated = false
+	if victim.AssociateRetry() == nil {
+		if r.AgentAlive() {
+			r.Violate("C10", "cannot-reassociate:up4:"+trigger, "after its association ended by %s, peer%d's fresh Association Setup is not accepted\n%s", trigger, victim.Idx, strings.Join(r.Sim.BlockedTable(), "\n"))
+		}
+		return
+	}
+	if res := victim.Establish(g.Session(victim, SessShape{TEIDChoose: true})); !res.Accepted && r.AgentAlive() && !fired {
+		r.Violate("C10", "reassociated-peer-not-served:up4:"+trigger, "after re-association peer%d's establishment is not accepted (cause %d)", victim.Idx, res.Cause)
+		return
+	}
+	// the other association is unaffected
+	for _, p := range r.Peers {
+		if p == victim || len(p.Sessions) == 0 {
+			continue
+		}
+		if p.Heartbeat() == nil && r.AgentAlive() {
+			r.Violate("C10", "untouched-association-affected:up4", "peer%d, whose association did not end, gets no heartbeat answer", p.Idx)
+			return
+		}
+	}
+	_ = o
+	r.CheckNoPanics("C10")
 }
